@@ -138,7 +138,8 @@ Record config := {
   c_deny : option (str -> bool);        (* DenyDomains matcher (C17 proves what a rule list denotes) *)
   c_aliases : list str;
   c_mitm : bool;                        (* MITM configured and the filter selects every host *)
-  c_idna : str -> str                   (* oracle: the ASCII form the transport connects to (identity on ASCII names) *)
+  c_idna : str -> str;                  (* oracle: the ASCII form the transport connects to (identity on ASCII names) *)
+  c_handler : bool                      (* served by the http.Handler variant (proxyHandler) instead of the connection handler *)
 }.
 Record env := { now_day : N; now_hour : N }.
 
@@ -336,8 +337,11 @@ Fixpoint run_steps (cfg : config) (e : env) (q : req) (up : upstream_reply)
       | SConnect =>
           EvDial (r_host q) :: run_steps cfg e q up rest (Some (200, []))
       | SRoundTrip =>
-          EvDial (r_host q) :: EvSend (r_host q)
-            :: run_steps cfg e q up rest (Some (u_status up, u_hdr up))
+          match r_host q with
+          | [] => [EvRespond 500 []]      (* the transport refuses a URL without host before dialling: error response *)
+          | _ => EvDial (r_host q) :: EvSend (r_host q)
+                   :: run_steps cfg e q up rest (Some (u_status up, u_hdr up))
+          end
       | SModifyResponse =>
           run_steps cfg e q up rest
                     (match res with Some (st, h) => Some (st, modify_response h) | None => None end)
@@ -382,6 +386,15 @@ Fixpoint conn_run (cfg : config) (e : env) (inside : bool) (qs : list (req * ups
          end
        else conn_run cfg e inside rest)
   end.
+
+(* which host the two variants work with.  `full` = the request's target (authority of the request line,
+   else the Host field), `raw` = req.URL.Host as the server parsed it ("" for an origin-form request).
+   The connection handler completes URL.Host in readRequest, before anything else.  The http.Handler
+   variant does so before the modifiers, after them, or not at all (Tables.handler_host_fixup_before, handler_host_fixup_after). *)
+Definition check_host (cfg : config) (raw full : str) : str :=
+  if c_handler cfg then (if handler_host_fixup_before then full else raw) else full.
+Definition dial_host (cfg : config) (raw full : str) : str :=
+  if c_handler cfg then (if handler_host_fixup_before || handler_host_fixup_after then full else raw) else full.
 
 (* ---------------------------------------------------------------- what the property demands *)
 (* spec-level "this target is the local machine": seed names, hosts-file aliases, loopback
